@@ -279,26 +279,42 @@ def run_queries(chk: Check, prog: Program) -> None:
     # ---- find_type (source, not the summary)
     m = prog.func("expressions", "MathExpression.find_type")
 
-    def body_ft(it: Interp):
-        root = it.new_summary(ALL_KINDS, "arg")
-        seq = [it.new_summary(ALL_KINDS, "arg") for _ in range(2)]
-        it.seq = seq
-        it.visits = []
-        _seq_hooks(it, root, seq)
-        return it.call_function(m, [root, Cls(prog.cls("AddExpression"))], {})
-    for p in explore(prog, body_ft, {"max_updepth": 0}):
-        it = p.interp
-        probs = []
-        if p.outcome != "return" or not isinstance(p.value, Lst):
-            probs.append(f"{p.outcome} {p.exc}")
-        else:
-            want = [n.cid for n in it.seq if it.cells[n.cid].kinds <= {"AddExpression"}]
-            got = [x.cid for x in p.value.items if isinstance(x, Node)]
-            if got != want:
-                probs.append(f"returns {got}, instances of the type in visit order are {want}")
-            if [v[1] for v in it.visits if v[0] == "traversal"] != ["inorder"]:
-                probs.append("find_type must scan in in-order")
-        chk.verdict(not probs, "C14.R5", "C14.R5:find_type", f"find_type: {p.cond}", "; ".join(probs), where=m.where)
+    for tname in ("AddExpression", "BinaryExpression", "UnaryExpression"):
+        subs = frozenset(k for k in prog.concrete_kinds() if prog.is_subclass(k, tname))
+
+        def body_ft(it: Interp, tname=tname):
+            root = it.new_summary(ALL_KINDS, "arg")
+            seq = [it.new_summary(ALL_KINDS, "arg") for _ in range(2)]
+            it.seq = seq
+            it.visits = []
+            _seq_hooks(it, root, seq)
+            return it.call_function(m, [root, Cls(prog.cls(tname))], {})
+        for p in explore(prog, body_ft, {"max_updepth": 0}):
+            it = p.interp
+            probs = []
+            if p.outcome != "return" or not isinstance(p.value, Lst):
+                probs.append(f"{p.outcome} {p.exc}")
+            else:
+                got = [x.cid for x in p.value.items if isinstance(x, Node)]
+                want = []
+                for n in it.seq:
+                    ks = frozenset(it.kinds_of(it.cells[n.cid]))
+                    if ks <= subs:
+                        want.append(n.cid)
+                    elif ks & subs:
+                        # the path did not find out whether this node is an instance: whatever it answers is wrong for
+                        # some node of the remaining classes
+                        inst = sorted(k.replace("Expression", "") for k in ks & subs)[:3]
+                        if n.cid not in got:
+                            probs.append(f"a node that may be a {'/'.join(inst)} (an instance of {tname}) is left out without "
+                                         f"being tested for it")
+                        else:
+                            probs.append(f"a node is returned without being tested for {tname}")
+                if not probs and got != want:
+                    probs.append(f"returns {got}, instances of {tname} in visit order are {want}")
+                if [v[1] for v in it.visits if v[0] == "traversal"] != ["inorder"]:
+                    probs.append("find_type must scan in in-order")
+            chk.verdict(not probs, "C14.R5", "C14.R5:find_type", f"find_type({tname}): {p.cond}", "; ".join(probs), where=m.where)
     # ---- local structure queries on generic binary trees
     cfgb = {"tree_mode": "binary", "max_updepth": 2, "max_downdepth": 2}
     from .common import value_equal_classes
